@@ -150,7 +150,7 @@ Fixpoint rle_skip_chunks (fuel : nat) (d : rle_dec) (offset : Z) : option rle_de
            else Some d
   end.
 Definition rle_seek (stream : list Z) (d : rle_dec) (offset : Z) : option rle_dec :=
-  let d0 := if offset <? rd_off d then rle_dec_init stream else d in
+  let d0 := if negb (rle_seek_restarts offset (rd_off d) =? 0) then rle_dec_init stream else d in   (* test regenerated from HCPcrle_seek *)
   match rle_skip_chunks (Z.to_nat (offset / TMP_BUF_SIZE + 1)) d0 offset with
   | None => None
   | Some d1 => if rd_off d1 <? offset
